@@ -9,37 +9,6 @@ harness reads every constructed node's arrow).
 import SimplicityModel.Prog.Infer
 import SimplicityModel.UnionBound
 
-namespace UB
-open Inf (Ty)
-
-/-- one call into `types::Context` / `types::Type`.  Allocating operations return the next element
-index (`Ctx.elems.size` before the call), so a constructor that starts at element count `k` knows
-the indices of everything it allocates. -/
-inductive Op
-  | free                          -- `Type::free`
-  | complete (t : Ty)             -- `Type::unit`, `Type::two_two_n`, `Type::complete`
-  | sum (a b : Nat)               -- `Type::sum`
-  | product (a b : Nat)           -- `Type::product`
-  | unify (a b : Nat)             -- `Context::unify`
-  | bindProduct (e a b : Nat)     -- `Context::bind_product`
-deriving Repr, DecidableEq
-
-def step (F : Nat) (c : Ctx) : Op → M Ctx
-  | .free => .ok (typeFree c).1
-  | .complete t => .ok (typeComplete c t).1
-  | .sum a b => match typeSum F c a b with | .ok (c, _) => .ok c | .error e => .error e
-  | .product a b => match typeProduct F c a b with | .ok (c, _) => .ok c | .error e => .error e
-  | .unify a b => unify F F c a b
-  | .bindProduct e a b => bindProduct F F c e a b
-
-def runOps (F : Nat) : Ctx → List Op → M Ctx
-  | c, [] => .ok c
-  | c, op :: ops => match step F c op with
-    | .error e => .error e
-    | .ok c => runOps F c ops
-
-end UB
-
 namespace Prog
 open UB (Op Ctx)
 
